@@ -18,7 +18,7 @@ def run(ctx):
     CI, pc = impl.CI, impl.pc
     rng = ctx.rng
     cid = 0
-    for it in range(ctx.budget(160, 1600)):
+    for it in range(ctx.budget(320, 4000)):
         N = rng.choice([1, 2, 3, 3, 4, 5, 6])
         length = rng.choice([1, 1, 2, 3, 5, 8, 12, 20, 30])
         prog = CU.rand_program(rng, N, length)
@@ -87,7 +87,7 @@ def run(ctx):
             if conf in ('plain', 'compiled', 'recompiled'):
                 d1, d2 = ('fwd', 'bwd') if order == 'bf' else ('bwd', 'fwd')
                 ans = ctx.drv.ask('circ %s %s L 0 %s _ - none' % (a, d1, H.erows_ops(Ps)))
-                ctx.count('corr:' + d1)
+                ctx.count('corr:' + d1); ctx.traces += 1
                 mv = H.drows_ops(ans.split(' ')[2]) if ans.startswith('ok ') else ans
                 if mv != mid:
                     ctx.mismatch(d1, 'circ %s (program of %d gates, %s)' % (d1, len(prog), conf), str(mv)[:600], str(mid)[:600], dict(rep=rep))
